@@ -1196,6 +1196,24 @@ struct AppCfg {
     pause_ms: u64,         // the writers sleep this long between chunks
     rebinds: u64,          // the client's socket moves to a new port this many times ...
     rebind_every_ms: u64,  // ... at this interval
+    wmask: u64,            // allowed write modes (bit set), 0 = send(Bytes) only
+    rmask: u64,            // allowed read modes (bit set), 0 = receive() / read() chosen by read_size
+    send_buf: u64,         // max_send_buffer_size, 0 = default
+    slow_wait_ms: u64,     // extra wait of the slow reader after the writer finished
+}
+
+// write modes: 0 send(Bytes); 1 send_vectored; 2 tokio AsyncWrite::poll_write_vectored (partial
+// writes honoured); 3 futures AsyncWriteExt::write_all
+// read modes: 0 receive(); 1 futures AsyncReadExt::read with odd sizes; 2 receive_vectored with
+// 1..4 slots until !is_open; 3 tokio AsyncRead::poll_read; 4 slow reader: waits until the writer
+// has finished and the data had time to arrive, then receive_vectored with 1..2 slots
+fn pick_mode(mask: u64, seed: u64, sid: u64, dir: u64, salt: u64, n: u64) -> Option<u64> {
+    let allowed: Vec<u64> = (0..n).filter(|m| mask & (1 << m) != 0).collect();
+    if allowed.is_empty() {
+        None
+    } else {
+        Some(allowed[(mix(seed ^ mix(sid * 2 + dir + salt)) % allowed.len() as u64) as usize])
+    }
 }
 
 /// endpoint limits: Retry for the first `retry` connection attempts
@@ -1268,6 +1286,9 @@ fn limits(c: &AppCfg, ep: usize) -> Limits {
     if c.max_ack_delay_ms > 0 {
         l = l.with_max_ack_delay(Duration::from_millis(c.max_ack_delay_ms)).unwrap();
     }
+    if c.send_buf > 0 {
+        l = l.with_max_send_buffer_size(c.send_buf.min(u32::MAX as u64) as u32).unwrap();
+    }
     if c.active_cid_limit[ep] > 0 {
         l = l.with_max_active_connection_ids(c.active_cid_limit[ep]).unwrap();
     }
@@ -1325,13 +1346,49 @@ async fn writer(mut send: s2n_quic::stream::SendStream, c: AppCfg, sh: Sh, ep: u
         if c.pause_ms > 0 && off > 0 {
             time::delay(Duration::from_millis(c.pause_ms)).await;
         }
-        match send.send(data).await {
-            Ok(()) => {
-                off += n;
+        let wmode = pick_mode(c.wmask, c.seed, sid, dir, 0x3131, 4).unwrap_or(0);
+        let res: Result<u64, ()> = match wmode {
+            1 => {
+                // split the chunk into up to 4 Bytes
+                let mut parts: Vec<Bytes> = Vec::new();
+                let mut rest = data.clone();
+                let k = 1 + rng.below(4);
+                for i in 0..k {
+                    if rest.is_empty() {
+                        break;
+                    }
+                    let take = if i + 1 == k { rest.len() } else { (1 + rng.below(rest.len() as u64)) as usize };
+                    parts.push(rest.split_to(take));
+                }
+                send.send_vectored(&mut parts).await.map(|_| n).map_err(|_| ())
+            }
+            2 => {
+                // 2..3 slices, the first one small; the call may accept only a part
+                let b = &data[..];
+                let cut1 = (1 + rng.below(b.len().min(64) as u64) as usize).min(b.len());
+                let cut2 = cut1 + if b.len() > cut1 { rng.below((b.len() - cut1) as u64 + 1) as usize } else { 0 };
+                let slices = [std::io::IoSlice::new(&b[..cut1]), std::io::IoSlice::new(&b[cut1..cut2]), std::io::IoSlice::new(&b[cut2..])];
+                let r = futures::future::poll_fn(|cx| tokio::io::AsyncWrite::poll_write_vectored(std::pin::Pin::new(&mut send), cx, &slices)).await;
+                match r {
+                    Ok(0) | Err(_) => Err(()),
+                    Ok(k) => Ok(k as u64),
+                }
+            }
+            3 => {
+                use futures::io::AsyncWriteExt;
+                send.write_all(&data[..]).await.map(|_| n).map_err(|_| ())
+            }
+            _ => send.send(data).await.map(|_| n).map_err(|_| ()),
+        };
+        match res {
+            Ok(k) => {
+                off += k;
                 let mut s = sh.lock().unwrap();
+                // only the accepted part counts as written (a partial vectored write)
+                s.flow(sid, dir).written = off;
                 s.last_progress_us = now_us();
             }
-            Err(_) => {
+            Err(()) => {
                 ok = false;
                 break;
             }
@@ -1377,20 +1434,72 @@ async fn reader(mut recv: s2n_quic::stream::ReceiveStream, c: AppCfg, sh: Sh, ep
     }
     let mut rng = Rng::new(c.seed, 5000 + sid * 2 + dir);
     let mut off = 0u64;
-    let mut buf = vec![0u8; (2 * c.read_size as usize).max(1)];
+    let mut buf = vec![0u8; (2 * c.read_size as usize).max(2)];
+    let rmode = pick_mode(c.rmask, c.seed, sid, dir, 0x5151, 5).unwrap_or(if c.read_size == 0 { 0 } else { 1 });
+    let slots = if rmode == 4 { 1 + (mix(c.seed ^ sid) % 2) as usize } else { 1 + (mix(c.seed ^ sid ^ 0x99) % 4) as usize };
+    let mut vec_done = false;
+    if rmode == 4 {
+        // the slow reader: wait until the writer finished, then long enough for everything that
+        // flow control admits to arrive and be reassembled
+        for _ in 0..3000 {
+            time::delay(Duration::from_millis(10)).await;
+            let s = sh.lock().unwrap();
+            let done = s.flows.iter().any(|f| f.sid == sid && f.dir == dir && (f.fin_written == 1 || f.err_w == 1));
+            if done || s.ep[ep].closed == 1 {
+                break;
+            }
+        }
+        time::delay(Duration::from_millis(c.slow_wait_ms)).await;
+    }
     loop {
-        let got: Result<Option<Vec<u8>>, ()> = if c.read_size == 0 {
-            match recv.receive().await {
+        let got: Result<Option<Vec<u8>>, ()> = match rmode {
+            0 => match recv.receive().await {
                 Ok(Some(b)) => Ok(Some(b.to_vec())),
                 Ok(None) => Ok(None),
                 Err(_) => Err(()),
+            },
+            1 => {
+                let n = 1 + rng.below(2 * c.read_size.max(1)) as usize;
+                match recv.read(&mut buf[..n]).await {
+                    Ok(0) => Ok(None),
+                    Ok(k) => Ok(Some(buf[..k].to_vec())),
+                    Err(_) => Err(()),
+                }
             }
-        } else {
-            let n = 1 + rng.below(2 * c.read_size) as usize;
-            match recv.read(&mut buf[..n]).await {
-                Ok(0) => Ok(None),
-                Ok(k) => Ok(Some(buf[..k].to_vec())),
-                Err(_) => Err(()),
+            3 => {
+                let n = 1 + rng.below(2 * c.read_size.max(1)) as usize;
+                let mut rb = tokio::io::ReadBuf::new(&mut buf[..n]);
+                let r = futures::future::poll_fn(|cx| tokio::io::AsyncRead::poll_read(std::pin::Pin::new(&mut recv), cx, &mut rb)).await;
+                match r {
+                    Ok(()) if rb.filled().is_empty() => Ok(None),
+                    Ok(()) => Ok(Some(rb.filled().to_vec())),
+                    Err(_) => Err(()),
+                }
+            }
+            _ => {
+                // receive_vectored as the API documentation shows: loop until !is_open
+                if vec_done {
+                    Ok(None)
+                } else {
+                    let mut chunks = [Bytes::new(), Bytes::new(), Bytes::new(), Bytes::new()];
+                    match recv.receive_vectored(&mut chunks[..slots]).await {
+                        Ok((count, is_open)) => {
+                            let mut v = Vec::new();
+                            for ch in &chunks[..count] {
+                                v.extend_from_slice(ch);
+                            }
+                            if !is_open {
+                                vec_done = true;
+                            }
+                            if v.is_empty() && !is_open {
+                                Ok(None)
+                            } else {
+                                Ok(Some(v))
+                            }
+                        }
+                        Err(_) => Err(()),
+                    }
+                }
             }
         };
         let mut s = sh.lock().unwrap();
@@ -1665,7 +1774,8 @@ fn server_tls(extra_chain: u64) -> (String, String) {
 //
 // case: [seed, drop_pm, dup_pm, corrupt_pm, jitter_ms, max_udp, n_bidi, bytes, stream_window,
 //        conn_window, max_streams, chunk, read_size, blackhole_after_ms, blackhole_len_ms (0 = forever),
-//        n_uni, delay_ms, idle_ms, fault_until_ms, close_at_end, finish_mode]
+//        n_uni, delay_ms, idle_ms, fault_until_ms, close_at_end, finish_mode, write_modes_mask, read_modes_mask,
+//        max_send_buffer_size]
 //
 // output: [1, watchdog_hit, sim_end_us, last_progress_us, connect_ok, n_bidi, n_uni, idle_ms, perm_bh, handshake_ms,
 //          client: 12 ints, server: 12 ints (push_ep),
@@ -1709,6 +1819,9 @@ fn e2e_stream(input: &[V]) -> Vec<V> {
     let fault_until_ms = c.u64();
     let close_at_end = c.u64() != 0;
     let finish_mode = c.u64().min(1);
+    let wmask = c.u64() & 15;
+    let rmask = c.u64() & 31;
+    let send_buf = c.u64().min(1 << 24);
 
     let sh = new_shared(seed);
     let app = AppCfg {
@@ -1726,6 +1839,10 @@ fn e2e_stream(input: &[V]) -> Vec<V> {
         close_at_end,
         full_records: true,
         finish_mode,
+        wmask,
+        rmask,
+        send_buf,
+        slow_wait_ms: 6 * delay_ms + 2 * jitter_ms + 50,
         ..Default::default()
     };
     let net = NetCfg {
